@@ -41,6 +41,7 @@ void use_templates()
   (void)CrossProduct(pt64, pt64, pt64); (void)CrossProduct(ptd, ptd);
   (void)DotProduct(pt64, pt64, pt64); (void)DotProduct(ptd, ptd);
   (void)PerpendicDistFromLineSqrd(pt64, pt64, pt64); (void)PerpendicDistFromLineSqrd(ptd, ptd, ptd);
+  (void)(pt64 == pt64); (void)(pt64 != pt64); (void)(ptd == ptd); (void)(ptd != ptd);
   // ---- scaling ----------------------------------------------------------------
   (void)ScalePath<int64_t, double>(pd, dbl, dbl, ec); (void)ScalePath<double, int64_t>(p64, dbl, dbl, ec);
   (void)ScalePath<int64_t, double>(pd, dbl, ec); (void)ScalePath<double, int64_t>(p64, dbl, ec);
